@@ -889,6 +889,8 @@ impl<T: Transport, Env: UtpEnvironment> VirtualSocket<T, Env> {
                 .max(min_ss as usize);
             let max_payload_size = ss.min(remote_window_remaining);
             let payload_size = max_payload_size.min(remaining);
+            // It's this segment's turn to be an MTU probe.
+            let probe_turn = ss > min_ss as usize;
 
             // Run Nagle algorithm to prevent sending too many small segments.
             {
@@ -897,11 +899,19 @@ impl<T: Transport, Env: UtpEnvironment> VirtualSocket<T, Env> {
 
                 if self.socket_opts.nagle && !can_send_full_payload && data_in_flight {
                     trace!(max_payload_size, "nagle: buffering more data");
+                    if probe_turn {
+                        // Don't lose the turn, probe when there's enough data.
+                        self.segment_sizes.disarm_cooldown();
+                    }
                     break;
                 }
             }
 
             let is_mtu_probe = payload_size > min_ss as usize;
+            if probe_turn && !is_mtu_probe {
+                // Not enough data or window to probe with, don't lose the turn.
+                self.segment_sizes.disarm_cooldown();
+            }
 
             if !self.user_tx_segments.enqueue(payload_size, is_mtu_probe) {
                 return Err(Error::BugCantEnqueue);
